@@ -70,34 +70,33 @@ Proof.
   pose proof (blk_pos w n) as P. pose proof (blk_pos w n') as P'.
   assert (Npos : 0 < n).
   { destruct (N.eq_0_gt_0_cases n) as [E|]; [|assumption]. exfalso.
-    rewrite E in *. unfold blk in A, F, Hle', fi'. rewrite N.sub_0_r in *.
-    apply mod0_divide in A; [|apply pow2_pos]. destruct A as [c Hc].
-    pose proof (pow2_pos w). unfold fi' in Hle'. rewrite E in Hle'. unfold blk in Hle'. rewrite N.sub_0_r in Hle'. nia. }
+    assert (B : blk w n = 2 ^ w) by (rewrite E; unfold blk; rewrite N.sub_0_r; reflexivity).
+    unfold fi' in Hle'. rewrite B in Hle'. clear - Hle' Hli. lia. }
   unfold pot. destruct (phase2 w fi n) eqn:Ph.
   - (* phase 2: limited by the end; the next block is strictly smaller and phase 2 again *)
     unfold phase2 in Ph. apply andb_true_iff in Ph. destruct Ph as [_ Al]. apply N.eqb_eq in Al.
-    destruct M as [M|M]; [lia|].
+    destruct M as [M|M]; [clear - M Npos; lia|].
     assert (NF : li < fi + blk w (n - 1) - 1) by (apply N.lt_nge; intros G; apply M; split; assumption).
     rewrite blk_double in NF by assumption.
-    assert (Lt : blk w n' < blk w n) by (unfold fi' in *; lia).
+    assert (Lt : blk w n' < blk w n) by (unfold fi' in F'; clear - F' NF P P'; lia).
     pose proof (blk_lt_inv w n n' Hn Hn' Lt) as Hnn.
     assert (Ph' : phase2 w fi' n' = true).
-    { unfold phase2. apply andb_true_iff. split; [apply N.ltb_lt; lia|]. apply N.eqb_eq.
+    { unfold phase2. apply andb_true_iff. split; [apply N.ltb_lt; clear - Hnn; lia|]. apply N.eqb_eq.
       apply divide_mod0; [apply blk_pos|]. unfold fi'. apply N.divide_add_r.
-      - apply N.divide_trans with (blk w (n - 1)); [apply blk_divide; lia|].
+      - apply N.divide_trans with (blk w (n - 1)); [apply blk_divide; clear - Hnn Hn' Npos; lia|].
         apply mod0_divide; [apply blk_pos|assumption].
-      - apply blk_divide; lia. }
-    rewrite Ph'. lia.
+      - apply blk_divide; clear - Hnn Hn'; lia. }
+    rewrite Ph'. clear - Hnn Hn'. lia.
   - (* phase 1: limited by alignment; the start becomes aligned one level up *)
     unfold phase2 in Ph. apply andb_false_iff in Ph.
-    destruct Ph as [Ph|Ph]; [apply N.ltb_ge in Ph; lia|]. apply N.eqb_neq in Ph.
+    destruct Ph as [Ph|Ph]; [apply N.ltb_ge in Ph; clear - Ph Npos; lia|]. apply N.eqb_neq in Ph.
     pose proof (next_aligned w n fi Npos Hn A Ph) as Al'. fold fi' in Al'.
-    destruct (phase2 w fi' n') eqn:Ph'; [lia|].
+    destruct (phase2 w fi' n') eqn:Ph'; [clear - Npos; lia|].
     unfold phase2 in Ph'. apply andb_false_iff in Ph'.
-    destruct (N.lt_ge_cases n' n) as [L|G]; [lia|]. exfalso.
-    destruct Ph' as [Ph'|Ph']; [apply N.ltb_ge in Ph'; lia|]. apply N.eqb_neq in Ph'. apply Ph'.
+    destruct (N.lt_ge_cases n' n) as [L|G]; [clear - L; lia|]. exfalso.
+    destruct Ph' as [Ph'|Ph']; [apply N.ltb_ge in Ph'; clear - Ph' G Npos; lia|]. apply N.eqb_neq in Ph'. apply Ph'.
     apply divide_mod0; [apply blk_pos|].
-    apply N.divide_trans with (blk w (n - 1)); [apply blk_divide; lia|].
+    apply N.divide_trans with (blk w (n - 1)); [apply blk_divide; clear - G Hn' Npos; lia|].
     apply mod0_divide; [apply blk_pos|assumption].
 Qed.
 
@@ -111,17 +110,19 @@ Proof.
   induction m as [m IH] using lt_wf_ind. intros fuel fi li Hli H Hf.
   destruct fuel as [|f]; [lia|]. cbn [summ].
   destruct (li <? fi) eqn:E; [discriminate|]. apply N.ltb_ge in E.
-  destruct H as [H|[_ Hp]]; [lia|]. fold (choose w fi li). set (n := choose w fi li) in *. fold (blk w n).
+  destruct H as [H|[_ Hp]]; [clear - H E; lia|]. fold (choose w fi li). set (n := choose w fi li) in *. fold (blk w n).
   destruct (fi + blk w n - 1 =? 2 ^ w - 1); [discriminate|].
   pose proof (blk_pos w n) as P.
-  replace (fi + blk w n - 1 + 1) with (fi + blk w n) by lia.
+  replace (fi + blk w n - 1 + 1) with (fi + blk w n) by (clear - P; lia).
   assert (summ w f (fi + blk w n) li <> None) as NN; [|destruct (summ w f (fi + blk w n) li); [discriminate|congruence]].
   destruct (N.lt_ge_cases li (fi + blk w n)) as [L|G].
   - destruct f as [|f']; [|cbn [summ]; apply N.ltb_lt in L; rewrite L; discriminate].
-    exfalso. unfold pot in Hp. destruct (phase2 w fi n); lia.
+    exfalso. unfold pot in Hp. destruct (phase2 w fi n); clear - Hp Hf; lia.
   - pose proof (pot_decreases w fi li Hli E G) as D. cbn zeta in D. fold n in D.
-    apply (IH (pot w (fi + blk w n) (choose w (fi + blk w n) li))); try lia.
-    right. split; [assumption|lia].
+    apply (IH (pot w (fi + blk w n) (choose w (fi + blk w n) li))); try assumption.
+    + clear - D Hp. lia.
+    + right. split; [assumption|]. apply Nat.le_refl.
+    + clear - D Hp Hf. lia.
 Qed.
 
 Theorem summarize_fuel_ok f s e : s <= e -> e < 2 ^ width f -> summarize f s e <> None.
